@@ -24,7 +24,7 @@ def process(item):
     prop, v = item
     key = f"{prop}_{v}"
     r = load().get(key, {})
-    out = Path(f"/tmp/s/{prop}_out")
+    out = Path(f"/tmp/s/waveH/{prop}_out")
     if "verified" not in r:
         if not (out / f"patch_{v}.diff").exists():
             return key, None
